@@ -29,6 +29,12 @@ CHECKS = {
  "C16": (EX, "exhaustive enumeration of boundary lattices of addresses, prefixes, textual forms and comparison tuples against the standard library's ipaddress module and integer arithmetic",
          "Every IPv4 address with octets in a boundary set x all 33 prefix lengths x all network-membership / CIDR / netmask call forms; every IPv6 zero-run pattern x group values x 129 masks; a grammar-generated set of well-formed and malformed IPv6/IPv4/Ethernet/dpid texts; all ordered pairs and triples of a 40-element set per type for the comparison laws; 65,536 dpids. Exhaustive over that stated finite set (about 7 million evaluations quick, 97 million thorough).",
          "Oracle = Python's ipaddress module + mc/refs/addr_ref.py; forms inet_aton accepts by tradition and '::' compressing a single group are not judged; cross-type equality excluded.", "DESIGN.md 4 C16"),
+ "C14": (EX, "exhaustive enumeration of a boundary lattice of header stacks x field values x payload lengths through pack -> parse -> pack of the real packet library, lengths and checksums verified from raw offsets by an independent RFC 1071 implementation",
+         "Every header stack the library can parse back (Ethernet/VLAN/LLC-SNAP/ARP/IPv4+options/IPv6+extension headers/ICMP/ICMPv6/TCP+options/UDP/DHCP/DNS/LLDP/MPLS/GRE/VXLAN/IGMP/RIP/EAPOL) x one-deviation boundary field vectors x payload lengths (every length 0..1500 for UDP/TCP/ICMP echo in thorough), plus checksum() itself on every buffer length/pattern of a stated set; first failing clause per case is reported.",
+         "Trusts mc/refs/rfc1071.py and the builder table mc/refs/pktcorpus.py; ICMPv6/IGMP/GRE checksums checked by round trip only.", "DESIGN.md 4 C14"),
+ "C12": (MC, "exhaustive enumeration of frames x action lists x port-config combinations through the real switch over the wire, emissions compared byte-for-byte with an independent byte-level rewriter",
+         "All action lists of length <=3 (quick) / <=4 (thorough) over 17 actions incl. virtual ports, as flow entry and as packet-out, on a corpus of tagged/untagged TCP/UDP/ICMP/ARP/other frames (incl. padded, fragments, options); all port-config bit combinations (boundary pairs quick, full 64x64 thorough) set via real port-mod messages; port counters read back with port-stats requests and compared with what was actually emitted.",
+         "Trusts mc/refs/refpkt.py (own offset arithmetic and RFC 1071) and mc/refs/ofwire.py; counters not asserted for OFPP_TABLE resubmission.", "DESIGN.md 4 C12"),
 }
 
 PENDING_REASON = "check under construction in this round (design in DESIGN.md section 4); not claimed until its harness is committed and silent on the unchanged tree"
